@@ -658,6 +658,9 @@ func main() {
 		if tier == "thorough" {
 			nLint, nGen = 1500, 1500
 		}
+		if v := os.Getenv("C04_N"); v != "" {
+			fmt.Sscanf(v, "%d,%d", &nLint, &nGen)
+		}
 		for i := 0; i < nLint; i++ {
 			custom := rng.Bool()
 			p, u, c, g, f := 2+rng.Below(3), rng.Below(5), rng.Below(5), rng.Below(4), rng.Below(64)
